@@ -197,6 +197,11 @@ def concrete(sigdef, cplx):
 
 
 REALISATIONS = ("plain", "prealloc", "slice", "slice-indexarray")
+TINY = 2.0 ** -27       # non-zero entries of magnitude 7.5e-9: still entries to be perturbed and reported
+
+
+def homogeneous(c):
+    return all(m["k"] in ("lin", "split", "sum") for m in c["prog"]) and not c["rel"]
 
 
 def run_case(c, expected, real="plain"):
@@ -213,6 +218,8 @@ def run_case(c, expected, real="plain"):
     parents = {}
     for s, d in c["init"].items():
         st = concrete(d, cplx_of[s] or any(v[1][0] != 0 for v in d["v"]))
+        if real == "tiny":
+            st = st * TINY          # the same problem in units of 2^-27: homogeneous linear programs report the same derivatives
         if real == "prealloc":
             sigs[s] = pym.Signal("s%d" % s, st, np.zeros_like(st) if isinstance(st, np.ndarray) else 0 * st)
         elif real in ("slice", "slice-indexarray") and isinstance(st, np.ndarray):
@@ -246,7 +253,7 @@ def run_case(c, expected, real="plain"):
 
     def rec(x0, dx, an, fd):
         log.append((complex(x0), float(dx), float(an), float(fd)))
-    dx = c["dx"][0] / c["dx"][1]
+    dx = c["dx"][0] / c["dx"][1] * (TINY if real == "tiny" else 1.0)
     if len(mods) > 1:
         # the procedure needs the states of the signals it starts from (it runs the preceding modules itself)
         pass
@@ -270,7 +277,7 @@ def run_case(c, expected, real="plain"):
             return "dx", "test_fn received dx = %r" % got[1]
     for q, s in enumerate(c["from"]):
         st = sigs[s].state
-        fin = np.array([cval(v) for v in expected["final"][q]])
+        fin = np.array([cval(v) for v in expected["final"][q]]) * (TINY if real == "tiny" else 1.0)
         if np.ndim(st) == 0:
             if complex(st) != fin[0]:
                 return "restore", "input %d is %r after the call, it was %r" % (q, st, fin[0])
@@ -306,7 +313,7 @@ def run(chk, replay=None):
     if len(exp) != len(cs):
         raise tlc.TLCError("FiniteDiff emitted %d of %d cases" % (len(exp), len(cs)))
     for c in cs:
-        for real in (REALISATIONS if replay is None else [replay.get("signals", "plain")]):
+        for real in ((REALISATIONS + (("tiny",) if homogeneous(c) else ())) if replay is None else [replay.get("signals", "plain")]):
             res = run_case(c, exp[c["id"]], real)
             key = {"id": c["id"], "prog": [[m["k"], m["i"], m["o"]] for m in c["prog"]], "from": c["from"], "to": c["to"], "dx": c["dx"],
                    "rel": c["rel"], "keepzero": c["keepzero"], "signals": real}
